@@ -407,6 +407,19 @@ def run_reuse(res: Result, kind: T.Kind, tier: str) -> None:
                 observe(obj, g)
             if not mutate_typed(obj, kind, vb, enc[j]):
                 res.count("reuse_typed_not_settable")
+                # the object must stay self-consistent: if every field reads back as the new value, its bytes must say so too
+                # (a serialisation cached before the change would make every later probe go out with the old bytes)
+                try:
+                    reads_back = all(getattr(obj, n) == val for n, val in vb.items() if hasattr(obj, n)) and any(hasattr(obj, n) and va.get(n) != val for n, val in vb.items())
+                    stale = reads_back and obj.pdu == enc[i]
+                except Exception:  # noqa: BLE001
+                    stale = False
+                if stale:
+                    res.violate(
+                        f"C03|{kind.name}|reused-request-object|bytes-do-not-follow-fields",
+                        f"{type(obj).__name__}: after serialising {enc[i].hex()[:40]} the fields were set to {vb} and read back as set, but .pdu is still {obj.pdu.hex()[:40]} (a fresh object gives {enc[j].hex()[:40]})",
+                        {"mode": "reuse", "typed": True, "kind": kind.name, "states": [enc[i].hex(), enc[j].hex()], "reply": (gen[j] or [b"\x7f\x00\x31"])[0].hex()},
+                    )
                 continue
             res.count("reuse_typed_mutations")
             reuse_step(res, obj, [enc[i].hex(), enc[j].hex()], True, kind.name, replies)
